@@ -644,10 +644,15 @@ class AffineTransform(BaseTransform):
         return super().config_dict()
 
     def _save_state(self, h5_file):
+        if self._mean is None:
+            # Not fitted yet (e.g. the data transform of an untrained flow)
+            return
         h5_file.create_dataset("mean", data=self._mean)
         h5_file.create_dataset("std", data=self._std)
 
     def _load_state(self, h5_file):
+        if "mean" not in h5_file:
+            return
         self._mean = asarray(h5_file["mean"][()], xp=self.xp)
         self._std = asarray(h5_file["std"][()], xp=self.xp)
         self.log_abs_det_jacobian = -self.xp.log(self.xp.abs(self._std)).sum()
